@@ -62,11 +62,21 @@ def chunkings(rng, data):
 def ops_of(chunks):
     return ",".join(["W" + c.hex() for c in chunks] + ["E"])
 
+def deep_doc(rng):
+    """nesting counters at and beyond 255 / 256: templates in select (the guard's depth), foreign roots (namespace stack), plain elements"""
+    k = rng.choice([254, 255, 256, 257, 300])
+    c = rng.randrange(4)
+    if c == 0: return b"<select>" + b"<template>" * k + rng.choice([b"", b"</template>" * k + b"</select><p>x</p>", b"<title>"])
+    if c == 1: return (b"<svg>" * k) + b"<g/>" + (b"</svg>" * rng.choice([0, k, k + 1])) + b"<p>x</p>"
+    if c == 2: return (b"<math><mi>" * (k // 2)) + b"x" + b"<p>y</p>"
+    return (b"<div>" * k) + b"x" + (b"</div>" * rng.choice([0, k]))
 def gen_l1(rng, n, prefix="a"):
     for i in range(n):
         data = doc(rng) if rng.randrange(4) else wellformed(rng)
+        if rng.randrange(40) == 0: data = deep_doc(rng)
         seed = rng.choice([21, 0, 1, 5, 9, 13]) + 32 * rng.randrange(3)
         kv = dict(seed=seed, strict=rng.randrange(4) == 0 and 1 or 0)
+        if data.startswith(b"<select><template><template>"): kv["strict"] = 1
         r = rng.randrange(10)
         if r == 0:
             kv.update(fail=1 + rng.randrange(6), bh=rng.randrange(2), bail=rng.choice(["-", b"<!--bail-->".hex()]))
@@ -200,6 +210,9 @@ def _fmt_combo(rng):
     return t
 def gen_el_ops(rng, observe=False):
     if observe: return ""
+    if rng.randrange(15) == 0:
+        # only calls that are refused (bad names): the token must stay byte-identical
+        return ",".join(rng.choice(["sa:%s:%s" % (hx(rng.choice(["a=b", "", "x y", "a>b", "a/b"])), hx("v")), "tn:" + hx(rng.choice(["1a", "", "a b", "a>b", "-x"]))]) for _ in range(rng.randrange(1, 3)))
     if rng.randrange(12) == 0:
         # insert-then-remove combinations (content placed outside an element must survive its removal, also for void elements)
         return rng.choice(["af:%s,rm", "af:%s,rp:%s", "bf:%s,af:%s,rm", "sf:%s,rm", "af:%s,rk", "bf:%s,rp:%s", "af:%s,si:%s", "pp:%s,ap:%s,rk"]).replace("%s", "{}").format(*[gen_chunk(rng) for _ in range(3)][: 3]) if False else \
@@ -216,11 +229,10 @@ def gen_el_ops(rng, observe=False):
         elif c < 11: ops.append("rm")
         elif c < 12: ops.append("rk")
         elif c < 15: ops.append("sa:%s:%s" % (hx(rng.choice(ATTRN + ["new", "a=b", "", "x y"])), hx(rng.choice(ATTRV + ['say "hi"', "<>&"]))))
-        elif c < 16: ops.append("ra:" + hx(rng.choice(ATTRN)))
-        elif c < 17: ops.append("tn:" + hx(rng.choice(["b", "section", "X", "1a", "a b", "", "my-x", "\u00e9l", "\u0434\u0438\u0432", "x\u00e9", "a>b", "-x"])))
-        elif c < 18: ops.append("oe:(%s)" % "+".join(gen_et_op(rng) for _ in range(rng.choice([0, 1, 2]))))
-        elif c < 19: ops.append(rng.choice(["sb:", "sf:", "sr:"]) + gen_chunk(rng))
-        else: ops.append("sx")
+        elif c < 16: ops.append("ra:" + hx(rng.choice(ATTRN + ["class", "id", "title", "href", "CLASS", "Id"])))
+        elif c < 18: ops.append("tn:" + hx(rng.choice(["b", "section", "X", "b", "span", "1a", "a b", "", "my-x", "\u00e9l", "\u0434\u0438\u0432", "x\u00e9", "a>b", "-x"])))
+        elif c < 19: ops.append("oe:(%s)" % "+".join(gen_et_op(rng) for _ in range(rng.choice([0, 1, 2]))))
+        else: ops.append(rng.choice(["sb:" + gen_chunk(rng), "sf:" + gen_chunk(rng), "sr:" + gen_chunk(rng), "sx"]))
     return ",".join(ops)
 def gen_et_op(rng):
     c = rng.randrange(6)
@@ -259,13 +271,17 @@ def l2_doc(rng, depth=0, foreign=False):
     for _ in range(rng.randrange(1, 5)):
         c = rng.randrange(20)
         if c < 8 and depth < 5:
-            t = rng.choice(TAGS + (["g", "path", "link", "col"] if foreign else []))
+            t = rng.choice(TAGS + (["g", "path", "link", "col", "font-face", "linearGradient", "feGaussianBlur", "svg", "svg"] if foreign else []))
             if rng.randrange(12) == 0: t = t.upper()
             attrs = b""
             for _ in range(rng.choice([0, 0, 1, 1, 2, 3])):
                 n = rng.choice(ATTRN); v = rng.choice(ATTRV)
                 if rng.randrange(6) == 0: v = flip(rng, v)
                 attrs += b" " + n.encode() + rng.choice([b"", b"=" + (v.replace(" ", "_") or "x").encode(), b'="' + v.encode() + b'"', b"='" + v.encode() + b"'"])
+            if rng.randrange(5) == 0:
+                # the same attribute name again (another spelling, another value): lookups take the first, removal takes all
+                dn = rng.choice(["class", "id", "title", "href"])
+                attrs += b" " + flip(rng, dn).encode() + b"=" + rng.choice([b"one", b"'two'", b'"a b"']) + b" x=1 " + flip(rng, dn).encode() + rng.choice([b"", b"=dup", b"='z'"])
             if rng.randrange(10) == 0:
                 # attribute names that are parse errors but still attributes (quotes, '<', leading '=' inside names; a stray quote after a value)
                 attrs += rng.choice([b' alt="foo""', b' b"c=2', b" it's=ok", b" d'=\"M0 0\"", b" =x", b" a=b=c", b" x<y=1", b' "', b" '=1", b' id="k"\' class=a'])
@@ -338,6 +354,13 @@ def pad_selectors(rng, toks, mk):
     for k in range(total): out.append(next(it) if k in pos else next(fi))
     return out
 
+def widgets_doc(rng):
+    """many distinct custom element names of one length under one parent (per-type sibling counters keyed by names that have no hash)"""
+    k = rng.choice([40, 160, 200]); names = ["x-widget-%03d" % j for j in range(k)]
+    rng.shuffle(names)
+    body = b"".join(("<%s>%s</%s>" % (nm, "t" if rng.randrange(3) == 0 else "", nm)).encode() for nm in names + rng.sample(names, min(10, k)))
+    return b"<section>" + body + b"</section>"
+WIDGET_SELS = [("*:first-of-type", "A.O0:1"), ("section > :nth-of-type(2)", "T%s>O0:2" % "73656374696f6e"), (":not(:first-of-type)", "X(O0:1)")]
 def gen_c04(rng, n, prefix="s"):
     FULL["on"] = True
     try:
@@ -348,6 +371,19 @@ def gen_c04(rng, n, prefix="s"):
             toks = []
             for _ in range(rng.choice([1, 2, 3, 4, 6])):
                 css, st = gen_selector(rng)
+                toks.append("sel=%s~%s~~-~-" % (hx(css), st))
+            if rng.randrange(60) == 0:
+                data = widgets_doc(rng); css, st = rng.choice(WIDGET_SELS); toks.append("sel=%s~%s~~-~-" % (hx(css), st))
+            if rng.randrange(12) == 0:
+                # one end tag closes several open levels that each had children of the same name; siblings of that name follow
+                nm = rng.choice(["p", "li", "b", "span"]); outer = rng.choice(["section", "div", "ul"])
+                lv = [rng.choice(["div", "span", "em", "a"]) for _ in range(rng.randrange(2, 5))]
+                data = ("<%s>" % outer).encode() + ("<%s id=a></%s>" % (nm, nm)).encode() * rng.randrange(0, 3)
+                for x in lv: data += ("<%s>" % x).encode() + ("<%s></%s>" % (nm, nm)).encode() * rng.randrange(1, 3)
+                data += ("</%s>" % rng.choice(lv[:2] + [outer])).encode() + ("<%s id=d>t</%s>" % (nm, nm)).encode() * rng.randrange(1, 4) + ("</%s>" % outer).encode() + ("<%s></%s>" % (nm, nm)).encode()
+                k = rng.randrange(1, 4)
+                css, st = rng.choice([("%s:nth-of-type(%d)" % (nm, k), "T%s.O0:%d" % (hx(nm), k)), ("%s > %s:first-of-type" % (outer, nm), "T%s>T%s.O0:1" % (hx(outer), hx(nm))),
+                                      (":nth-of-type(2n+1)", "O2:1"), ("%s:not(:first-of-type)" % nm, "T%s.X(O0:1)" % hx(nm))])
                 toks.append("sel=%s~%s~~-~-" % (hx(css), st))
             if rng.randrange(25) == 0: toks = pad_selectors(rng, toks, lambda css, st: "sel=%s~%s~~-~-" % (hx(css), st))
             ch = chunkings(rng, data)
@@ -441,7 +477,8 @@ def gen_enc(rng, n, prefix="e"):
         ins = rng.choice(["-", "-", hx("<i>\u00e9\u4e2d\u044f\U0001f600</i>"), hx("caf\u00e9"), hx("\u20ac&")])
         ch = chunkings(rng, data)
         endins = rng.choice(["-", "-", hx("\u00e9bauche"), hx("\u044f\u4e2d" * 40), hx("end<!--\u00e9-->"), hx("ascii end")])
-        yield "L3 %s%d nomodel=1 enc=%d meta=%d ins=%s endins=%s ops=%s" % (prefix, i, idx, meta, ins, endins, ",".join(["W" + c.hex() for c in ch] + ["E"]))
+        sparse = 1 if rng.randrange(5) == 0 else 0        # no text / comment handlers: tags only
+        yield "L3 %s%d nomodel=1 enc=%d meta=%d sparse=%d ins=%s endins=%s ops=%s" % (prefix, i, idx, meta, sparse, ins, endins, ",".join(["W" + c.hex() for c in ch] + ["E"]))
 
 def gen_td(rng, n, prefix="t"):
     """text-only UTF-8 documents (no '<'): valid multi-byte characters, malformed and truncated sequences, long runs, every kind of split"""
@@ -458,7 +495,7 @@ def gen_td(rng, n, prefix="t"):
         ch = chunkings(rng, data)
         yield "TD %s%d ops=%s" % (prefix, i, ",".join(["W" + c.hex() for c in ch] + ["E"]))
 
-C03_EXTRA = [b"<select>", b"</select>", b"<template>", b"</template>", b"<frameset>", b"</frameset>", b"<option>", b"<input>", b"<keygen>", b"<table>", b"<tr>", b"<td>",
+C03_EXTRA = [b"--->", b"---->", b"<script><!-- a --->", b"<script><!--<script> a --->", b"<script><!--x-----> <script>y</script>", b" <script> x </script><b>bold</b>", b"<select>", b"</select>", b"<template>", b"</template>", b"<frameset>", b"</frameset>", b"<option>", b"<input>", b"<keygen>", b"<table>", b"<tr>", b"<td>",
     b"<TEXTAREA>", b"</TextArea>", b"<TITLE>", b"</title >", b"</title/>", b"<noscript>", b"</noscript>", b"<noembed>", b"</noembed>", b"<plaintext>",
     b"<!DOCTYPE html PUBLIC \"-//W3C//DTD HTML 4.01//EN\" \"http://www.w3.org/TR/html4/strict.dtd\">", b"<!doctype html SYSTEM 'about:legacy-compat'>", b"<!DOCTYPE>", b"<!DOCTYPE html PUBLIC>",
     b"<!doctype a b>", b"<!DOCTYPE html PUBLIC \"x\">", b"<!DOCTYPE html PUBLIC 'x' 'y' z>", b"<!--", b"-->", b"--!>", b"<!-->", b"<!--->", b"<!--<!-->", b"<!--<!--x-->", b"<!-- a--b -->", b"<!--a---->",
@@ -496,6 +533,7 @@ def c03_island(rng, ns, depth=0):
                 elif k < 5: inner += b"<p>para</p>"
                 elif k < 6: inner += b"<script>1<2</script>"
                 elif k < 7 and depth < 3: inner += b"<svg>" + c03_island(rng, "svg", depth + 2) + b"</svg>"
+                elif k < 8 and rng.randrange(2): inner += rng.choice([b"<x-y>q</x-y><title>t<b></title>", b"</x-y><style>s<i></style>", b"<a-b>q</a-b><textarea><u></textarea>", b"</my-element-0><b>b</b><script>1<2</script>"])
                 else: inner += b"words"
             out += open_ + inner + b"</" + t + b">"
             if ns != "svg" and rng.randrange(2):
@@ -528,6 +566,8 @@ def gen_l2(rng, n, profile, prefix):
         observe = profile in ("match", "fail") or (profile == "mixed" and rng.randrange(3) == 0)
         toks = []
         nsel = rng.choice([0, 1, 1, 2, 2, 3, 4]) if profile != "match" else rng.choice([1, 2, 3, 5])
+        if rng.randrange(80) == 0:
+            data = widgets_doc(rng); css, st = rng.choice(WIDGET_SELS); toks.append("sel=%s~%s~~-~-" % (hx(css), st))
         for _ in range(nsel):
             css, st = gen_selector(rng)
             el = gen_el_ops(rng, observe) if rng.randrange(5) else "-"
@@ -592,8 +632,20 @@ def gen_groups(rng, n, base_family, k):
 OBSERVERS = ["doc=~-~-~-", "doc=-~~-~-", "doc=-~-~a:~-", "sel=2a~A~~-~-", "sel=" + "6c692c20615b687265665d" + "~T6c69|T61.E68726566~~-~-",
              "sel=" + "2a" + "~A~-~~-", "sel=" + "64697620*".replace("*", "2a") + "~T646976_A~-~-~a:"]
 def gen_pairs(rng, n):
-    """C06: configuration H and H plus a set O of observing handlers: ids <base>.0 (H) and <base>.j (H u O_j)"""
-    for line in gen_l2(rng, n, 'match', 'pr'):
+    """C06: configuration H and H plus a set O of observing handlers: ids <base>.0 (H) and <base>.j (H u O_j).
+    H comes from the matching profile and from the scoped-dispatch profile (element handlers that attach end-tag handlers)"""
+    import itertools
+    def nested_roots():
+        # a foreign root nested directly in a root of the same namespace; H watches the end tag of the inner root (end-tag hint -> lexer)
+        # and every element (namespace, self-closing flag, CDATA handling after the inner end tag)
+        for i in range(max(1, n // 8)):
+            root = rng.choice(["svg", "svg", "math"])
+            inner = l2_doc(rng, 3, True); after = rng.choice([b"<circle r=1/>", b"<![CDATA[><p id=x>]]>", b"<title><b>x</b></title>", b"<p>para</p><g/>", b"<g><path/></g>"]) + l2_doc(rng, 3, True)
+            data = rng.choice([b"", b"<div>"]) + ("<%s>" % root).encode() + rng.choice([b"", b"<g>"]) + ("<%s a=b>" % root).encode() + inner + ("</%s>" % root).encode() + after + ("</%s>" % root).encode() + b"<p>tail</p>"
+            toks = ["sel=%s~T%s~oe:()~-~-" % (hx(root), hx(root)), "sel=2a~A~~-~-"]
+            if rng.randrange(2): toks.append("sel=70~T70~~-~-")
+            yield "L2 prn%d isz=104 strict=0 %s ops=%s" % (i, " ".join(toks), ",".join(["W" + c.hex() for c in chunkings(rng, data)] + ["E"]))
+    for line in itertools.chain(gen_l2(rng, n - n // 3, 'match', 'pr'), gen_c05(rng, n // 3, 'prd'), nested_roots()):
         if any(t.split('=')[0] in ('fail', 'mem') for t in line.split(' ')): continue
         data = data_of(line); cid = line.split(' ')[1]
         ch = chunkings(rng, data)
@@ -608,13 +660,19 @@ def gen_mem(rng, n):
     isz = int(open('/verif/build/itemsize.txt').read().strip()) if __import__('os').path.exists('/verif/build/itemsize.txt') else 104
     for i in range(n):
         data = rng.choice(growers) + (doc(rng, 4) if rng.randrange(2) else b"")
-        sels = rng.choice([["sel=2a~A~~-~-"], ["sel=2a~A~~~a:"], [], ["sel=" + hx("div div") + "~T646976_T646976~~-~-", "doc=-~~-~-"], ["doc=~~a:~-"], ["doc=~~a:~-"], ["doc=-~~-~-"]])
+        deep = rng.randrange(6) == 0
+        if deep:
+            # the open-element stack past its second growth step, then input that has to be buffered (an unfinished tag whose
+            # attributes a selector needs): both charge the same allowance
+            data = b"<div>" * rng.choice([17, 20, 33, 40]) + b'<span title="' + b"a" * rng.choice([200, 600, 1500])
+        sels = [rng.choice(["sel=" + hx("span.never") + "~T7370616e.C6e65766572~~-~-", "sel=" + hx("div span[title]") + "~T646976_T7370616e.E7469746c65~~-~-"])] if deep else rng.choice([["sel=2a~A~~-~-"], ["sel=2a~A~~~a:"], [], ["sel=" + hx("div div") + "~T646976_T646976~~-~-", "doc=-~~-~-"], ["doc=~~a:~-"], ["doc=~~a:~-"], ["doc=-~~-~-"]])
         prealloc = rng.choice([0, 0, 16, 64])
         ch = [c for c in chunkings(rng, data)]
         if len(ch) < 4 and len(data) > 12:
             k = rng.randrange(4, 9); a = max(1, len(data) // k); ch = [data[j:j+a] for j in range(0, len(data), a)]
         need = len(data) + 8 * isz * 4 + prealloc
-        limits = sorted(set([0, 1, prealloc, prealloc + 1] + [rng.randrange(0, need) for _ in range(6)] + [len(data), need + 10]))
+        if deep: prealloc = 0
+        limits = sorted(set([0, 1, prealloc, prealloc + 1] + [rng.randrange(0, need) for _ in range(14 if deep else 6)] + [len(data), need + 10]))
         bm = rng.randrange(2)
         for lim in limits:
             if lim < prealloc and i % 10 != 0: continue   # preallocation above the limit: known finding C10/PreallocAboveLimit, kept in a few groups
@@ -671,7 +729,11 @@ def gen_utf8m(rng, n):
             css, st = rng.choice([("div", "T" + hx("div")), ("p", "T" + hx("p")), ("span", "T" + hx("span")), ("div div", "T%s_T%s" % (hx("div"), hx("div"))), (".a", "C" + hx("a")), ("div > *", "T%s>A" % hx("div")), ("*", "A")])
             toks.append("sel=%s~%s~%s~%s~%s" % (hx(css), st, rng.choice(["-", "-", ""]), rng.choice(["-", "-", ""]), rng.choice(["a:", "a:", "l:", "-"])))
         if all(t.endswith("~-~-~-") for t in toks): toks[0] = toks[0][:-1] + "a:"
-        for j, ch in enumerate(all_chunkings(rng, data, 3)):
+        chs = all_chunkings(rng, data, 5)
+        # a cut right after a byte >= 0x80 that is preceded by ordinary text in the same write (a character split with decoded text before it)
+        hi = [k for k in range(2, len(data)) if data[k - 1] >= 0x80 and data[k - 2] < 0x80]
+        if hi: k = rng.choice(hi); c0 = rng.randrange(0, k - 1); chs.append([data[:c0], data[c0:k], data[k:]])
+        for j, ch in enumerate(chs):
             yield "L2 um%d.%d nomodel=1 isz=104 strict=0 %s ops=%s" % (i, j, " ".join(toks), ",".join(["W" + c.hex() for c in ch] + ["E"]))
 
 def gen_sk(rng, n):
@@ -690,6 +752,23 @@ def gen_sk(rng, n):
             ops.append("u" + f.hex())
             if rng.randrange(8) == 0: ops.append("s" + rng.choice(["", "ok", "<i>", "\u00e9", "a&b"]).encode().hex())
         yield "SK k%d ct=%s ops=%s" % (i, rng.choice("ht"), ",".join(ops))
+
+def gen_twins(rng, n):
+    """pairs of cases whose selectors differ only in ASCII case where case matters (ids, classes, case-sensitive attribute values):
+    anything remembered from one rewriter (a cache keyed too coarsely) shows in the other"""
+    for i in range(n // 2):
+        data = l2_doc(rng)
+        v = rng.choice(["a", "b", "x", "ab", "a b", "en-us"])
+        kind = rng.randrange(4)
+        def sel(val):
+            if kind == 0: return ("#" + val.replace(" ", ""), "I" + hx(val.replace(" ", "")))
+            if kind == 1: return ("." + val.replace(" ", ""), "C" + hx(val.replace(" ", "")))
+            if kind == 2: return ('[title="%s"]' % val, "Ves:%s:%s" % (hx("title"), hx(val)))
+            return ('[class~="%s" s]' % val.split(" ")[0], "Vis:%s:%s" % (hx("class"), hx(val.split(" ")[0])))
+        ch = chunkings(rng, data)
+        for tag, val in (("a", v), ("b", v.upper())):
+            css, st = sel(val)
+            yield "L2 tw%d%s isz=104 strict=0 sel=%s~%s~~-~- ops=%s" % (i, tag, hx(css), st, ",".join(["W" + c.hex() for c in ch] + ["E"]))
 
 def gen_nohandlers(rng, n):
     """no handlers at all: the tag scanner alone; written byte by byte so that pending is observed at every prefix"""
@@ -725,6 +804,8 @@ def main():
         for l in gen_td(rng, n): print(l)
     elif fam == "sk":
         for l in gen_sk(rng, n): print(l)
+    elif fam == "twins":
+        for l in gen_twins(rng, n): print(l)
     elif fam == "capis":
         # streaming content handlers (outside the Coq model): C API run vs Rust API run only
         UT = ["\u00e9", "\u4e2d\u6587", "\U0001f600", "a&b<c>", "plain", "x\u00e9y"]
